@@ -40,6 +40,11 @@ type c05Hist struct {
 	conf  map[*chainlab.Node]map[types.TransactionID]bool
 	step  int
 	bad   bool
+	// validated: the next batch goes through AddValidatedV2Blocks
+	validated bool
+	// abandoned: tips the node left behind in earlier reorgs (their blocks are
+	// stored with supplements)
+	abandoned []*chainlab.Node
 }
 
 func (h *c05Hist) log(s string) { h.cs.Steps = append(h.cs.Steps, fmt.Sprintf("%d:%s", h.step, s)) }
@@ -86,7 +91,7 @@ func (h *c05Hist) recordAccepted(v1 []types.Transaction, v2 []types.V2Transactio
 	}
 	for i := range v2 {
 		t := v2[i].DeepCopy()
-		add(t.ID(), &accepted{v2: &t}, chainlab.V2Parents(t), chainlab.V2Creates(t))
+		add(t.ID(), &accepted{v2: &t}, append(chainlab.V2Parents(t), chainlab.V2ProofIndexes(t)...), chainlab.V2Creates(t))
 	}
 }
 
@@ -271,7 +276,16 @@ func (h *c05Hist) check(touched map[types.Hash256]bool) {
 // submitBlocks submits a batch through the auditor and returns the touched set.
 func (h *c05Hist) submitBlocks(batch []*chainlab.Node) map[types.Hash256]bool {
 	old := h.a.Tip
-	_, fs := h.a.Submit(batch)
+	var fs []chainlab.Finding
+	if h.validated {
+		h.validated = false
+		var err error
+		if err, fs = h.a.SubmitValidated(batch); err == chainlab.ErrNoState {
+			_, fs = h.a.Submit(batch)
+		}
+	} else {
+		_, fs = h.a.Submit(batch)
+	}
 	if len(fs) > 0 {
 		reportFindings(h.r, chainCase{Kind: "c05", Stream: h.cs.Stream, Params: h.cs.Params}, h.t, h.a, fs)
 		h.bad = true
@@ -339,7 +353,7 @@ func runC05History(r *mon.Run, stream uint64) {
 		tip = h.a.Tip
 		pool := snapPool(cm)
 		touched := map[types.Hash256]bool{}
-		switch k := rng.IntN(20); {
+		switch k := rng.IntN(25); {
 		case k < 7: // fresh valid set on top of the pool
 			pb, _ := tip.L.PoolBuilder(rng, pool.v1, pool.v2)
 			m1, m2 := len(pb.Txns), len(pb.V2Txns)
@@ -464,6 +478,67 @@ func runC05History(r *mon.Run, stream uint64) {
 				fork = append(fork, x)
 			}
 			h.log(fmt.Sprintf("fork depth=%d len=%d", back, len(fork)))
+			h.validated = tip.Height-uint64(back) >= p.Require && rng.IntN(3) == 0
+			touched = h.submitBlocks(fork)
+			if !h.bad && h.a.Tip != tip {
+				h.abandoned = append(h.abandoned, tip)
+			}
+		case k < 21: // back onto a branch the node validated and left earlier: its blocks are re-applied from the store
+			if len(h.abandoned) == 0 {
+				break
+			}
+			x := h.abandoned[rng.IntN(len(h.abandoned))]
+			if !x.ChainValid || chainlab.CommonAncestor(x, tip) == x {
+				break
+			}
+			var ext []*chainlab.Node
+			for !x.L.State.SufficientlyHeavierThan(tip.L.State) && len(ext) < 8 {
+				x = t.Extend(x, prof)
+				ext = append(ext, x)
+			}
+			if len(ext) == 0 || !x.ChainValid {
+				break
+			}
+			h.log(fmt.Sprintf("reorg back onto an abandoned branch, %d new blocks", len(ext)))
+			r.Count("reorgs_back_onto_validated_branch", 1)
+			h.validated = ext[0].Height > p.Require && rng.IntN(3) == 0
+			touched = h.submitBlocks(ext)
+			if !h.bad && h.a.Tip != tip {
+				h.abandoned = append(h.abandoned, tip)
+			}
+		case k < 23: // plain extension through the pre-validated path
+			if tip.Height < p.Require {
+				break
+			}
+			var ext []*chainlab.Node
+			x := tip
+			for i := 0; i < 1+rng.IntN(2); i++ {
+				x = t.Extend(x, prof)
+				ext = append(ext, x)
+			}
+			h.log(fmt.Sprintf("pre-validated extension, %d blocks", len(ext)))
+			r.Count("prevalidated_extensions_under_pool", 1)
+			h.validated = true
+			touched = h.submitBlocks(ext)
+		case k < 24: // a heavier fork with an invalid block: the reorg is rolled back
+			back := 1 + rng.IntN(2)
+			if uint64(back) > tip.Height {
+				break
+			}
+			x := tip.Ancestor(tip.Height - uint64(back))
+			var fork []*chainlab.Node
+			for i := 0; i < back; i++ {
+				x = t.Extend(x, prof)
+				fork = append(fork, x)
+			}
+			good := t.Extend(x, chainlab.Profile{MaxTxns: 4})
+			bad := t.Corrupt(good, []string{"double-spend", "output-inflate", "sig-bit", "v2-commitment"}[rng.IntN(4)], true)
+			if bad == nil || !bad.OrphanValid || bad.Valid {
+				break
+			}
+			fork = append(fork, bad, t.ExtendHeaderOnly(bad))
+			h.log(fmt.Sprintf("heavier invalid fork depth=%d", back))
+			r.Count("rolled_back_reorgs_under_pool", 1)
 			touched = h.submitBlocks(fork)
 		default: // mine a block from the pool with coreutils.MineBlock
 			var blk types.Block
@@ -616,7 +691,11 @@ func runC05(r *mon.Run, replay string) {
 	parallel(r.Pick(2, 24), func(i int) { runC05PoolFull(r, uint64(58000+i)) })
 	parallel(r.Pick(3, 30), func(i int) { runC05Resubmit(r, uint64(58500+i)) })
 	r.Floor("resubmit_histories_past_the_limit_if_recharged", 1)
+	r.Floor("reorgs_back_onto_validated_branch", 20)
+	r.Floor("prevalidated_extensions_under_pool", 20)
 	r.Floor("poolfull_evictions_observed", 1)
+	r.Floor("blocks_mined_from_overfull_pool", 6)
+	r.Floor("poolfull_children_of_pooled_transactions", 6)
 	r.Floor("pool_audits", 1000)
 	r.Floor("blocks_mined_from_pool", 50)
 	r.Floor("reorgs_under_pool", 50)
@@ -861,6 +940,70 @@ func runC05PoolFull(r *mon.Run, stream uint64) {
 				r.Violation("eviction-not-by-fee", fmt.Sprintf("a transaction paying %v per weight unit was evicted while one paying %v was kept in the same eviction", *maxGone, *minKept), cs, nil)
 				return
 			}
+		}
+	}
+	// blocks assembled from a pool that is heavier than one block: small
+	// children of big pooled transactions are added, then blocks are mined from
+	// the pool until it is empty; every one of them must be valid and adopted
+	// (a block is a prefix of the pool, never a child without its parent)
+	{
+		pool := snapPool(cm)
+		pb, _ := tip.L.PoolBuilder(rng, pool.v1, pool.v2)
+		m1, m2 := len(pb.Txns), len(pb.V2Txns)
+		for i := 0; i < 40; i++ {
+			pb.V2Spend(env.Actors[rng.IntN(len(env.Actors))], 1.0)
+		}
+		_, kids := pb.TakeNew(&m1, &m2)
+		maker := map[types.Hash256]types.V2Transaction{}
+		for _, x := range pool.v2 {
+			for _, c := range chainlab.V2Creates(x) {
+				maker[c] = x
+			}
+		}
+		for _, k := range kids {
+			// a set has to contain its own unconfirmed parents: [pooled parent, child]
+			var set []types.V2Transaction
+			seen := map[types.TransactionID]bool{}
+			for _, q := range chainlab.V2Parents(k) {
+				if mk, ok := maker[q]; ok && !seen[mk.ID()] {
+					seen[mk.ID()] = true
+					set = append(set, mk.DeepCopy())
+				}
+			}
+			set = append(set, k)
+			if _, err := cm.AddV2PoolTransactions(tip.L.State.Index, set); err == nil {
+				r.Count("poolfull_children_of_pooled_transactions", 1)
+				for _, c := range chainlab.V2Creates(k) {
+					maker[c] = k
+				}
+			} else if debugOn {
+				fmt.Println("DEBUG child rejected:", err)
+			}
+		}
+		cur := tip
+		for round := 0; round < 14; round++ {
+			pool = snapPool(cm)
+			if len(pool.v2)+len(pool.v1) == 0 {
+				break
+			}
+			var blk types.Block
+			if pn := mon.Guard(func() { blk, _ = coreutils.MineBlock(cm, env.A(chainlab.Miner).Addr, 2*time.Second) }); pn != nil {
+				r.Violation("mineblock-panic", fmt.Sprint("MineBlock panicked: ", pn), cs, nil)
+				return
+			}
+			blk.Timestamp = cur.Block.Timestamp.Add(env.Net.BlockInterval)
+			chainlab.MineNonce(cur.L.State, &blk)
+			n := t.Attach(cur, blk, "", []string{"mined-from-overfull-pool"})
+			r.Count("blocks_mined_from_overfull_pool", 1)
+			if !n.ChainValid {
+				r.Violation("mined-block-invalid:overfull-pool", fmt.Sprintf("a block assembled by MineBlock from a pool heavier than one block (%d pooled transactions, %d in the block) is invalid under the pure oracle: %s", len(pool.v2), len(blk.V2Transactions()), n.Err), cs, nil)
+				return
+			}
+			if err := cm.AddBlocks([]types.Block{blk}); err != nil || cm.Tip().ID != n.ID {
+				r.Violation("mined-block-not-adopted:overfull-pool", fmt.Sprintf("a block mined from the pool on top of the tip was not adopted: %v", err), cs, nil)
+				return
+			}
+			cur = n
 		}
 	}
 	r.Eval()
